@@ -152,7 +152,7 @@ def tasks(tier, seed=0):
             out.append(('small', e, first))
         out.append(('small', e, -1))
     out += [('shapes', k) for k in range(8)]
-    out += [('short',), ('nested-short',)]
+    out += [('short',), ('nested-short',), ('hostile-names',)]
     out += [('siblings', n) for n in ((64, 256, 1024, 2048)
                                       if tier == 'thorough'
                                       else (64, 256, 1024))]
@@ -220,6 +220,20 @@ def inputs(task, tier, seed=0):
             yield label + ' (method argument table)', wraps['table-body'](body)
             props = b'\x20\x00' + struct.pack('>I', len(body)) + body
             yield label + ' (headers property)', wraps['header-flags'](props)
+    elif kind == 'hostile-names':
+        wraps = dict(faults.envelopes())
+        for label, body in faults.hostile_names():
+            yield label + ' (method argument table)', wraps['table-body'](body)
+            props = b'\x20\x00' + struct.pack('>I', len(body)) + body
+            yield label + ' (headers property)', wraps['header-flags'](props)
+        # hostile text as short-string arguments in front of a failing field
+        for name in faults.HOSTILE_TEXT:
+            raw = name.encode('utf-8')
+            for bad in (b'\x00\x00\x00\x05\x01k?\x00\x00', b'\xff',
+                        b'\x00\x00\x00\x02\x01'):
+                args = (b'\x00\x00' + bytes([len(raw)]) + raw + b'\x00' + bad)
+                yield 'hostile queue name %r' % name, faults.frame_wrap(
+                    1, 1, b'\x00\x32\x00\x0a' + args)
     elif kind == 'siblings':
         wraps = dict(faults.envelopes())
         for label, body in faults.sibling_lies(task[1]):
